@@ -1,4 +1,5 @@
 from . import simulation  # noqa
 from . import resource_manager  # noqa
+from . import assets  # noqa
 from . import frames  # noqa
 from . import claims  # noqa
